@@ -3239,6 +3239,175 @@ def tuple_params(fn):
     return n
 
 
+def question_marks(fn):
+    """D40  `e?` on an Option (inside a function / closure returning Option):  `match Try::branch(e) { Continue(v) => v, Break(r) => return from_residual(r) }`
+            ->  `match e { Some(v) => v, None => return None }`      (the definition of `?` for Option)."""
+    n = 0
+    tys = _TYPES[0] or []
+    for x in _walk(fn.get("body")):
+        if x.get("k") != "match" or not str(x.get("src", "")).startswith("TryDesugar"):
+            continue
+        sc = x["scrut"]
+        if sc.get("k") != "call" or sc.get("callee") != "std::ops::Try::branch" or len(sc.get("args") or []) != 1:
+            continue
+        e = sc["args"][0]
+        ti = e.get("ta", e.get("t"))
+        if ti is None or ti >= len(tys) or not tys[ti].startswith("std::option::Option<"):
+            continue
+        cont = [a for a in x["arms"] if str(a["pat"].get("path", "")).endswith("Continue")]
+        brk = [a for a in x["arms"] if str(a["pat"].get("path", "")).endswith("Break")]
+        if len(cont) != 1 or len(brk) != 1:
+            continue
+        vps = cont[0]["pat"].get("ps") or [q for _, q in (cont[0]["pat"].get("fs") or [])]
+        if len(vps) != 1:
+            continue
+        line = x.get("line")
+        none = {"k": "path", "def": "std::prelude::v1::None", "line": line}
+        x["scrut"] = e
+        x["src"] = "Normal"
+        x["from_question_mark"] = True
+        x["arms"] = [{"pat": {"k": "tstruct", "path": "std::prelude::v1::Some", "ps": vps}, "guard": None, "body": cont[0]["body"]},
+                     {"pat": {"k": "ppath", "path": "std::prelude::v1::None"}, "guard": None, "body": {"k": "ret", "v": none, "line": line}}]
+        n += 1
+    return n
+
+
+def let_else_over_option_block(fn):
+    """D41  `let Some(P) = 'l: { s..; break 'l None; ..; tail } else { DIV };`   (an inlined helper returning Option with early `return None` / `?`, DIV a
+            single `continue` / `break` / `return`)  ->  `s..; DIV (at each early exit); let Some(P) = tail else { DIV };`
+            `let Some(P) = if c { Some(v) } else { None } else { DIV };`  ->  `if !c { DIV }  let P = v;`
+            `let Some(P) = Some(v) else { DIV };`                          ->  `let P = v;`"""
+    n = 0
+
+    def some_pat(p):
+        while p is not None and p.get("k") in ("ref", "deref"):
+            p = p["p"]
+        return p if (p is not None and p.get("k") == "tstruct" and p["path"].endswith("::Some") and len(p.get("ps") or []) == 1) else None
+
+    def is_none(e):
+        e = _unblk(e)
+        return e is not None and e.get("k") == "path" and str(e.get("def", "")).endswith("::None")
+
+    def some_arg(e):
+        e = _unblk(e)
+        if e is not None and e.get("k") == "call" and str(e.get("callee", "")).endswith("::Some") and len(e["args"]) == 1:
+            return e["args"][0]
+        return None
+
+    def div_of(els):
+        e = els
+        while e is not None and ((e.get("k") == "blk" and e.get("lbl") is None and len(e["b"]["stmts"]) + (1 if e["b"].get("tail") is not None else 0) == 1)
+                                 or (e.get("k") == "block" and len(e["stmts"]) + (1 if e.get("tail") is not None else 0) == 1)):
+            if e.get("k") == "blk":
+                e = e["b"]["stmts"][0] if e["b"]["stmts"] else e["b"]["tail"]
+            else:
+                e = e["stmts"][0] if e["stmts"] else e["tail"]
+        if e is not None and e.get("k") in ("continue", "break", "ret") and e.get("v") is None:
+            return e
+        return None
+    for blkn in list(_walk(fn.get("body"))):
+        if blkn.get("k") != "block":
+            continue
+        changed = True
+        while changed:
+            changed = False
+            out = []
+            for st in blkn["stmts"]:
+                # the same statement after D2 (`let (b..) = match INIT { Some(P) => (b..), _ => DIV }`)
+                m0 = _unblk(st.get("init")) if st.get("k") == "let" and not st.get("els") and st.get("init") is not None else None
+                if (m0 is not None and m0.get("k") == "match" and len(m0["arms"]) == 2 and all(a.get("guard") is None for a in m0["arms"]) and some_pat(m0["arms"][0]["pat"]) is not None
+                        and m0["arms"][1]["pat"].get("k") in ("wild", "ppath") and div_of(m0["arms"][1]["body"]) is not None and not changed):
+                    div = div_of(m0["arms"][1]["body"])
+                    sp = some_pat(m0["arms"][0]["pat"])
+                    init = m0["scrut"]
+                    while init.get("k") == "blk" and init.get("lbl") is None and not init["b"]["stmts"] and init["b"].get("tail") is not None:
+                        init = init["b"]["tail"]
+                    line = st.get("line")
+                    if init.get("k") == "blk" and init.get("lbl") is not None and init["b"].get("tail") is not None:
+                        lbl = init["lbl"]
+                        okb = all(not (y.get("k") == "break" and y.get("label") == lbl and not is_none(y.get("v"))) for y in _walk(init["b"]))
+                        if okb and not any(z.get("k") in ("for", "loop") for z in _walk(init["b"])):
+                            def fix2(x):
+                                if isinstance(x, list):
+                                    return [fix2(v) for v in x]
+                                if not isinstance(x, dict):
+                                    return x
+                                if x.get("k") == "break" and x.get("label") == lbl:
+                                    return copy.deepcopy(div)
+                                for k_, v in list(x.items()):
+                                    if isinstance(v, (dict, list)):
+                                        x[k_] = fix2(v)
+                                return x
+                            out.extend(fix2(init["b"]["stmts"]))
+                            m0["scrut"] = fix2(init["b"]["tail"])
+                            out.append(st)
+                            changed = True
+                            n += 1
+                            continue
+                    i0 = _unblk(init)
+                    val = None
+                    if i0 is not None and i0.get("k") == "if" and i0.get("el") is not None and _unblk(i0["c"]).get("k") != "letx" and some_arg(i0["th"]) is not None and is_none(i0["el"]):
+                        neg = {"k": "un", "op": "Not", "x": i0["c"], "line": line}
+                        out.append({"k": "if", "c": neg, "th": {"k": "blk", "b": {"k": "block", "stmts": [copy.deepcopy(div)], "tail": None}, "line": line}, "el": None, "line": line, "from_let_else": True})
+                        val = some_arg(i0["th"])
+                    elif some_arg(init) is not None:
+                        val = some_arg(init)
+                    if val is not None:
+                        out.append({"k": "let", "pat": sp["ps"][0], "init": val, "els": None, "line": line})
+                        out.append({**st, "init": m0["arms"][0]["body"]})
+                        changed = True
+                        n += 1
+                        continue
+                if st.get("k") == "let" and st.get("els") is not None and st.get("init") is not None and some_pat(st["pat"]) is not None and div_of(st["els"]) is not None and not changed:
+                    div = div_of(st["els"])
+                    init = st["init"]
+                    sp = some_pat(st["pat"])
+                    line = st.get("line")
+                    if init.get("k") == "blk" and init.get("lbl") is not None and init["b"].get("tail") is not None:
+                        lbl = init["lbl"]
+                        okb = True
+                        for y in _walk(init["b"]):
+                            if y.get("k") == "break" and y.get("label") == lbl and not is_none(y.get("v")):
+                                okb = False
+                            if y.get("k") == "closure":
+                                pass
+                        # the early exits must not sit inside a loop of the helper (a `continue` placed there would target that loop)
+                        if okb and not any(z.get("k") in ("for", "loop") for z in _walk(init["b"])):
+                            def fix(x):
+                                if isinstance(x, list):
+                                    return [fix(v) for v in x]
+                                if not isinstance(x, dict):
+                                    return x
+                                if x.get("k") == "break" and x.get("label") == lbl:
+                                    return copy.deepcopy(div)
+                                for k_, v in list(x.items()):
+                                    if isinstance(v, (dict, list)):
+                                        x[k_] = fix(v)
+                                return x
+                            out.extend(fix(init["b"]["stmts"]))
+                            st["init"] = fix(init["b"]["tail"])
+                            out.append(st)
+                            changed = True
+                            n += 1
+                            continue
+                    i0 = _unblk(init)
+                    if i0 is not None and i0.get("k") == "if" and i0.get("el") is not None and _unblk(i0["c"]).get("k") != "letx" and some_arg(i0["th"]) is not None and is_none(i0["el"]):
+                        neg = {"k": "un", "op": "Not", "x": i0["c"], "line": line}
+                        out.append({"k": "if", "c": neg, "th": {"k": "blk", "b": {"k": "block", "stmts": [copy.deepcopy(div)], "tail": None}, "line": line}, "el": None, "line": line, "from_let_else": True})
+                        out.append({"k": "let", "pat": sp["ps"][0], "init": some_arg(i0["th"]), "els": None, "line": line})
+                        changed = True
+                        n += 1
+                        continue
+                    if some_arg(init) is not None:
+                        out.append({"k": "let", "pat": sp["ps"][0], "init": some_arg(init), "els": None, "line": line})
+                        changed = True
+                        n += 1
+                        continue
+                out.append(st)
+            blkn["stmts"] = out
+    return n
+
+
 _NEG = {"Lt": "Ge", "Ge": "Lt", "Gt": "Le", "Le": "Gt", "Eq": "Ne", "Ne": "Eq"}
 
 
@@ -3329,6 +3498,7 @@ def run(facts):
         _TYPES[0] = facts.get("types")
         counts["debug_asserts"] += strip_debug_asserts(fn["body"])
         counts["tuple_params"] = counts.get("tuple_params", 0) + tuple_params(fn)
+        counts["question_marks"] = counts.get("question_marks", 0) + question_marks(fn)
         counts["tail_returns"] = counts.get("tail_returns", 0) + tail_returns(fn)
         counts["range_for_each"] = counts.get("range_for_each", 0) + range_for_each(fn)
         counts["compound_assignments"] = counts.get("compound_assignments", 0) + compound_assignments(fn)
@@ -3351,6 +3521,7 @@ def run(facts):
         counts["while_let_next"] = counts.get("while_let_next", 0) + while_let_next(fn)
         _TYPES[0] = facts.get("types")
         counts["option_combinators"] = counts.get("option_combinators", 0) + option_combinators(fn)
+        counts["let_else_option_blocks"] = counts.get("let_else_option_blocks", 0) + let_else_over_option_block(fn)
         counts["let_else"] += let_else_to_match(fn["body"])
         counts["case_of_case"] = counts.get("case_of_case", 0) + option_case_of_case(fn)
         counts["lifted_arg_blocks"] = counts.get("lifted_arg_blocks", 0) + lift_arg_blocks(fn, facts["types"])
